@@ -114,7 +114,7 @@ Definition noretry_inner (m : mode) (e : env) (coe : nat -> bool) (t : Z) : deli
       end
   | OAbort =>
       (match m with MCall => DAbort
-                  | MExec => DOutcome (nr_outcome false None (Some S_ABORT) 0 None None None dur) end, SCancel, tr, t')
+                  | MExec => DOutcome (nr_outcome false None (Some S_ABORT) 1 None None None dur) end, SCancel, tr, t')
   | OCancel k => (DCancel k 1, SCancel, tr, t')
   | ONested =>
       match m with
